@@ -25,7 +25,10 @@ RULE = (
 VALUES = [-1, -2, 0, 0.0, False, 1, True, 1.0, 2, "a", "", "-1", ("t", 1), ("t", (1, 2)), None, 10 ** 18, -(10 ** 18),
           "x" * 200, 3.5, (-1,), (-2,)]
 KWSETS = [{}, {"a": 1}, {"a": 1, "b": 2}, {"b": 2, "a": 1}, {"a": [1, 2]}, {"a": {"k": 1}}, {"a": -1}, {"a": -2},
-          {"a": None}, {"z": "s", "a": 1.0}, {"a": 1.0}, {"a": True}]
+          {"a": None}, {"z": "s", "a": 1.0}, {"a": 1.0}, {"a": True},
+          # nested containers: the documented key (json.dumps(..., sort_keys=True)) canonicalises nested dicts too
+          {"a": {"x": 1, "y": 2}}, {"a": {"y": 2, "x": 1}}, {"a": [{"p": 1, "q": [1, 2]}]}, {"a": [{"q": [1, 2], "p": 1}]},
+          {"a": {"x": 1, "y": 2}, "b": 0}, {"b": 0, "a": {"y": 2, "x": 1}}]
 
 INIT_LOG = []
 
@@ -277,6 +280,14 @@ def prelude():
                 {"op": "new", "c": a, "a": [], "k": 3, "i": 0},
                 {"op": "new", "c": a, "a": [], "k": 6, "i": 0},
                 {"op": "new", "c": a, "a": [], "k": 7, "i": 0},
+                {"op": "new", "c": a, "a": [], "k": 12, "i": 0},
+                {"op": "new", "c": a, "a": [], "k": 13, "i": 0},
+                {"op": "check", "c": a, "a": [], "k": 12, "i": 0},
+                {"op": "new", "c": a, "a": [v1], "k": 14, "i": 0},
+                {"op": "new", "c": a, "a": [v1], "k": 15, "i": 0},
+                {"op": "new", "c": b, "a": [], "k": 16, "i": 0},
+                {"op": "new", "c": b, "a": [], "k": 17, "i": 0},
+                {"op": "drop", "c": a, "a": [], "k": 13, "i": 0},
             ])
     return out
 
